@@ -433,8 +433,10 @@ static int thread_memory_owner(const void *p) {     // any simulated thread's (o
     return -1;
 }
 
+static void note_main_thread();
 void run_concurrent(const Config &cfg, thread_fn fn, void *arg, Result &out) {
     g_joined = 0;
+    note_main_thread();
     g_cfg = &cfg; g_res = &out; g_fn = fn; g_arg = arg; g_nthreads = cfg.nthreads;
     out.interleaving_hash = SIM_FNV_INIT;
     g_step = 0; g_replay_i = 0; g_quantum_left = cfg.quantum; g_stop_all = false;
@@ -485,8 +487,17 @@ void run_concurrent(const Config &cfg, thread_fn fn, void *arg, Result &out) {
 }
 
 static thread_local int t_af_at = 0, t_af_n = 0; static thread_local bool t_af_fired = false;
+static thread_local size_t t_af_sizes[4];
 void arm_alloc_fault(int k) { t_af_at = k; t_af_n = 0; t_af_fired = false; }
 bool alloc_fault_fired() { return t_af_fired; }
+bool alloc_fault_armed() { return t_af_at > 0; }
+// what the armed fault met: whether it fired and the sizes the library asked for up to there.  Two executions of a call are
+// comparable under the fault only if this is the same in both (a record taken from a cache needs no allocation at all)
+std::string alloc_fault_signature() {
+    std::string s = t_af_fired ? "fired" : "not-fired";
+    for (int i = 0; i < t_af_n && i < 4 && i < t_af_at; i++) s += (i ? "," : ":") + std::to_string(t_af_sizes[i]);
+    return s;
+}
 void set_abort_hook(abort_hook h) { g_abort_hook = h; }
 bool run_sequential(thread_fn fn, int tid, void *arg) {
     Th &me = TH[MAIN_TID];
@@ -501,10 +512,29 @@ void leave_sut() { if (t_in_sut > 0) t_in_sut--; }
 bool thread_aborted() { return t_tid >= 0 && TH[t_tid].aborted; }
 
 static Result g_seq_dummy;
+// the calling OS thread is the simulated process's main thread from now on (its stack and thread-local blocks)
+static pthread_t g_main_thread; static bool g_main_known = false;
+static void note_main_thread() {
+    if (g_main_known && pthread_equal(g_main_thread, pthread_self())) return;
+    g_main_thread = pthread_self(); g_main_known = true;
+    pthread_attr_t at; void *sa = nullptr; size_t ss = 0;
+    if (pthread_getattr_np(pthread_self(), &at) == 0) { pthread_attr_getstack(&at, &sa, &ss); pthread_attr_destroy(&at); TH[MAIN_TID].stack_lo = (uintptr_t)sa; TH[MAIN_TID].stack_hi = (uintptr_t)sa + ss; TH[MAIN_TID].own_hi = TH[MAIN_TID].stack_hi; }
+    g_main_tls.clear(); dl_iterate_phdr(main_tls_cb, nullptr);
+}
 void begin_sequential() {
     t_tid = MAIN_TID; g_mode = 1; g_seq_steps = 0; t_in_sut = 0;
-    pthread_attr_t at; void *sa = nullptr; size_t ss = 0;
-    if (!TH[MAIN_TID].stack_lo && pthread_getattr_np(pthread_self(), &at) == 0) { pthread_attr_getstack(&at, &sa, &ss); pthread_attr_destroy(&at); TH[MAIN_TID].stack_lo = (uintptr_t)sa; TH[MAIN_TID].stack_hi = (uintptr_t)sa + ss; TH[MAIN_TID].own_hi = TH[MAIN_TID].stack_hi; }
+    note_main_thread();
+}
+// every simulated process gets a main thread of its own (fresh thread-local storage): fn runs on a new OS thread
+struct FreshArg { void (*fn)(void *); void *arg; };
+static void *fresh_tramp(void *p) { FreshArg *a = (FreshArg *)p; a->fn(a->arg); t_tid = -1; t_in_sut = 0; return nullptr; }
+void on_fresh_thread(void (*fn)(void *), void *arg) {
+    FreshArg a{ fn, arg };
+    pthread_attr_t at; pthread_attr_init(&at); pthread_attr_setstacksize(&at, 16u << 20);
+    pthread_t th;
+    if (pthread_create(&th, &at, fresh_tramp, &a) != 0) { pthread_attr_destroy(&at); fn(arg); return; }
+    pthread_attr_destroy(&at);
+    pthread_join(th, nullptr);
 }
 uint64_t end_sequential() { g_mode = 0; t_tid = -1; t_in_sut = 0; return g_seq_steps; }
 
@@ -574,7 +604,6 @@ void init() {
     }
     std::sort(g_ro.begin(), g_ro.end(), [](const Range &a, const Range &b) { return a.lo < b.lo; });
     if (__start_eavdata) g_pristine.assign(__start_eavdata, __stop_eavdata);
-    dl_iterate_phdr(main_tls_cb, nullptr);      // init() runs on the main thread
 }
 
 const char *set_process_locale(const char *name) { return __real_setlocale(LC_ALL, name); }
@@ -664,13 +693,14 @@ static void block_del(void *p) {
     RtGuard rg_;
     for (size_t i = 0; i < g_blocks.size(); i++) if (g_blocks[i].lo == (uintptr_t)p) { shadow_clear_range(g_blocks[i].lo, g_blocks[i].n); g_blocks.erase(g_blocks.begin() + (long)i); return; }
 }
-static bool alloc_fails() {
-    if (!active() || t_af_at <= 0) return false;
+static bool alloc_fails(size_t size) {
+    if (!active() || t_af_at <= 0 || t_af_fired) return false;
+    if (t_af_n < 4) t_af_sizes[t_af_n] = size;
     if (++t_af_n == t_af_at) { t_af_fired = true; return true; }
     return false;
 }
-void *__wrap_malloc(size_t n) { on_plain_point(PC); if (alloc_fails()) { errno = ENOMEM; return nullptr; } void *p = __real_malloc(n); ctor_block_add(p); block_add(p, n); return p; }
-void *__wrap_calloc(size_t a, size_t b) { on_plain_point(PC); if (alloc_fails()) { errno = ENOMEM; return nullptr; } void *p = __real_calloc(a, b); ctor_block_add(p); block_add(p, a * b); return p; }
+void *__wrap_malloc(size_t n) { on_plain_point(PC); if (alloc_fails(n)) { errno = ENOMEM; return nullptr; } void *p = __real_malloc(n); ctor_block_add(p); block_add(p, n); return p; }
+void *__wrap_calloc(size_t a, size_t b) { on_plain_point(PC); if (alloc_fails(a * b)) { errno = ENOMEM; return nullptr; } void *p = __real_calloc(a, b); ctor_block_add(p); block_add(p, a * b); return p; }
 void *__wrap_realloc(void *o, size_t n) { on_plain_point(PC); block_del(o); ctor_block_del(o); void *p = __real_realloc(o, n); ctor_block_add(p); block_add(p, n); return p; }
 // a pointer into a thread's stack or thread-local block handed to free(): glibc would abort the process; report it instead
 static bool bad_free(void *p) {
